@@ -817,6 +817,10 @@ def corpus():
         _mk("f", "s", "year", "month/2020,2,1/1", "out:D", tags=("corpus",)),
         _mk("i", "s", "month", "year/2020,1,1/1", "out:-", tags=("corpus",)),
         _mk("g", "s", "day", "month/2020,2,1/1", "frmt:A", tags=("corpus",)),
+        # the eternal-variable guards (reached only with the eternity period for ADD)
+        _mk("i", "s", "eternity", ETERNITY_TOK, "add", tags=("corpus", "eternity-period")),
+        _mk("i", "s", "eternity", "month/2020,1,1/1", "div", tags=("corpus",)),
+        _mk("i", "s", "month", "none", "chk", tags=("corpus", "chk")),
     ]
     return out
 
@@ -850,15 +854,19 @@ PROP = Prop(
     generate=generate, impl=impl, oracle=oracle, nontrivial=nontrivial, corpus=corpus,
     neighbours=neighbours, canon_equal=canon_equal, enumerate_thorough=enumerate_thorough,
     search_budget_factor=3,
-    rule=("lines `add <kind> <cfg> <defUnit> <period> <mode>`: the complete matrix 6 definition units x 6 request "
+    rule=("lines `add <kind> <cfg> <defUnit> <parg> <mode>`: the complete matrix 6 definition units x 6 request "
           "units (eternity included) x sizes {1,2,3,12} (thorough: every size 1..24) x start dates drawn from a boundary "
-          "pool (29 Feb, month ends, ISO week 53, 31 Dec / 1 Jan inside a week, rolling years, 1 Jan on a Monday, century "
-          "years, years 2/4/1000/9000/9970; 12 fixed + 6 drawn dates quick, 40 fixed + 5 drawn thorough, each taken as it is and aligned to the unit) x "
-          "{calculate, calculate_add, calculate_divide, and from inside a formula: no option, ADD, DIVIDE, both, unknown}; "
-          "int variables (ord(start) mod 9973) and float variables (mod 1009); plus constant / neutralised variables, the "
-          "not-stored configuration, 23 spellings of the options sequence on random cells, non-period arguments, sizes <= 0, "
-          "impossible dates, malformed lines. A fresh simulation per line. Non-trivial = a decision of the accept/reject "
-          "matrix or an accepted ADD / DIVIDE value; distinct = distinct protocol lines."),
+          "pool (29 Feb, month ends, ISO week 53, ISO week 01 beginning in December, 31 Dec / 1 Jan inside a week, rolling "
+          "years, 1 Jan on a Monday, century years, years 2/4/1000/9000/9970; 15 fixed + 6 drawn dates quick, 43 fixed + 5 "
+          "drawn thorough, each taken as it is and aligned to the unit) x {calculate, calculate_add, calculate_divide, "
+          "calculate_output on variables declaring none / calculate_output_add / calculate_output_divide, and from inside a "
+          "formula: no option, ADD, DIVIDE, both, unknown}; the period passed as a Period object, and — for every aligned start — "
+          "as str(period) (week / weekday texts go through the ISO calendar) and as an int; int (mod 9973), float (mod 1009, "
+          "3-argument formula) and group-entity variables, trace on one start in five, 1-3 persons; plus constant / neutralised "
+          "variables, the not-stored configuration, 23 spellings of the options in lists and tuples on random cells, "
+          "check_period_validity, non-period arguments, sizes <= 0, impossible dates, malformed lines. A fresh simulation per "
+          "line, every request made twice on it. Non-trivial = a decision of the accept/reject matrix or an accepted ADD / "
+          "DIVIDE value; distinct = distinct protocol lines."),
     assumptions=[
         "the engine below the period checks is abstracted by a value function val(period); the generated variables implement "
         "it with a formula returning ord(period.start) mod M (formula selection, casting and caching are C01's subject)",
@@ -870,6 +878,10 @@ PROP = Prop(
         "sizes <= 0, impossible dates, years < 2 or > 9990 and an eternal formula variable requested for the ETERNITY period "
         "are compared with the model but not binding",
         "errors are compared as one class (any exception of ValueError / IndexError / TypeError / OverflowError)",
+        "periods.period(str | int) is the C05 model parsePeriod (tied by C05's correspondence); text arguments are generated "
+        "for periods aligned to their own unit with years 1000..9990 (C05's claim domain)",
+        "not generated (outside the statement): options in a non-Sequence container (set, frozenset, iterator: ignored by "
+        "the code), period=None on the three Simulation methods (AttributeError)",
     ],
     exhaustive_note=("thorough: the finite table 6 definition units x 6 request units x 8 request modes is enumerated completely "
                      "for every size 1..24 on 44+ start dates (aligned and rolling)"),
